@@ -9,7 +9,7 @@ from ..model.elements import SYM, Z
 from ..universe import geom as G
 
 PROP = "C20"
-RULE = ("round trip xyz_str -> from_xyz for n in {1,2,3,7,40} atoms, all 118 elements cycled through the positions, every "
+RULE = ("round trip xyz_str -> from_xyz for n in {1,2,3,7,40,100,1000,1001} (thorough: also 99, 101, 999, 9999, 10000, 10001) atoms, all 118 elements cycled through the positions, every "
         "coordinate from a value grid (0, -0, +-1e-9, +-4.9e-9, +-5.1e-9, +-0.123456789, +-1, +-12345.678901234, +-999999.99999999, "
         "+-1e6; full product for one atom, Latin-square covering above), 9 comment lines incl. None, empty, numeric-looking, "
         "unicode, tabs, 200 characters: elements identical, |delta| <= 0.5e-8 (+1 ulp).  Connectivity: all 118x118 element pairs "
@@ -30,7 +30,7 @@ COMMENTS = [None, "", " ", "#x", "H 0 0 0", "3", "café αβ →", "x" * 200, "a
 
 def items(tier, seed):
     out = [{"part": "rt1", "tier": tier, "seed": seed}]
-    for n in (2, 3, 7, 40):
+    for n in ((2, 3, 7, 40, 100, 1000, 1001) if tier == "quick" else (2, 3, 7, 40, 99, 100, 101, 999, 1000, 1001, 9999, 10000, 10001)):
         out.append({"part": "rtn", "n": n, "tier": tier, "seed": seed})
     for lo in range(1, 119, 10):
         out.append({"part": "pairs", "lo": lo, "hi": min(119, lo + 10), "tier": tier, "seed": seed})
@@ -98,7 +98,7 @@ def run_item(item):
         n = item["n"]
         syms = [SYM[i] for i in range(1, 119)]
         L = len(VALS)
-        for shift in range(L):
+        for shift in range(L if n <= 101 else 4):     # (atom counts with 3, 4, 5 digits: fewer value shifts)
             for cidx, c in enumerate(COMMENTS if shift % 3 == 0 else COMMENTS[:2]):
                 els = [syms[(shift * 7 + i * 5 + cidx) % 118] for i in range(n)]
                 xyz = [[VALS[(shift + i) % L], VALS[(2 * shift + 3 * i + 1) % L], VALS[(5 * shift + i * i + 2) % L]] for i in range(n)]
